@@ -919,10 +919,28 @@ func TestLotteryLayouts(t *testing.T) {
 		l := drawLayout(t, 400, false)
 		evid.Eval()
 		_, models, facts := checkLayout(t, l, "")
-		for sid, f := range facts {
-			if f.placeholderForeign > 0 {
-				evid.Sample("placeholder", map[string]interface{}{"seed": hex.EncodeToString(l.Seed), "candidates": f.n, "flipsPerCandidate": flipCounts(models[sid])})
+		for s := uint32(1); s <= l.ShardsNum; s++ {
+			sid := common.ShardId(s)
+			f := facts[sid]
+			class := ""
+			switch {
+			case f.placeholderForeign > 0:
+				class = "placeholder"
+			case f.flips == 1 && f.n > 1:
+				class = "one-flip"
+			case f.topUp && f.authors < f.n:
+				class = "top-up"
+			case f.nonTrivial():
+				class = "few-authors"
 			}
+			if class == "" {
+				continue
+			}
+			c := map[string]interface{}{"seed": hex.EncodeToString(l.Seed), "shards": l.ShardsNum, "shard": s, "candidates": f.n, "authors": f.authors, "flips": f.flips}
+			if f.n <= 30 {
+				c["flipsPerCandidate"] = flipCounts(models[sid])
+			}
+			evid.Sample(class, c)
 		}
 	})
 }
